@@ -132,11 +132,23 @@ def showCOut : COut → String
 def showPreOut : PreOut → String
   | .clean => "clean"
   | .raised m => s!"raised {m}"
-  | .attributeError => "attributeError"
   | .unexpected => "unexpected"
 
 def stepAll (st : St) (line : String) : St × String :=
   match (line.splitOn " ").filter (· ≠ "") with
+  | "sendrecv" :: ms =>
+    -- `sendrecv <pending…> / <arriving…>`
+    (st, match ms.splitOn "/" with
+      | [p, a] =>
+        (match parseCMsgs p, parseCMsgs a with
+         | some p, some a =>
+           (match sendRecv p a with
+            | .returned r => s!"returned {showReply r}"
+            | .wrapped (some m) => s!"wrapped {m}"
+            | .wrapped none => "wrapped -"
+            | .blocked => "blocked")
+         | _, _ => "bad-op")
+      | _ => "bad-op")
   | "predrain" :: ms =>
     (st, match parseCMsgs ms with | some l => showPreOut (preDrain l) | none => "bad-op")
   | "recv" :: ms =>
